@@ -33,3 +33,227 @@ def cases(tier, seed):
 
 def execute(case):
     return storeops.execute_case(case, {"lru"}, "c06", PROP)
+
+
+# ----------------------------------------------------------------------------- exhaustive part: MemoryCache driven directly
+
+EX_KEYS = 3
+EX_SIZES = {"tiny": 40, "third": 330, "half": 500, "exact": 968, "over": 1100}   # payloads; budget 1 KiB, str overhead 56
+EX_BUDGET_KIB = 1
+
+
+def ex_ops():
+    ops = []
+    for k in range(EX_KEYS):
+        for s in EX_SIZES:
+            ops.append(["put", k, s])
+        ops += [["putm", k], ["read", k], ["is", k], ["get", k], ["forget_call", k]]
+    ops += [["forget_fn", 0], ["forget_fn", 1], ["forget_all"]]
+    return ops
+
+
+def _ex_case(prefixes):
+    return {"seed": 1, "mode": "exhaustive", "prefixes": prefixes}
+
+
+def _exec_exhaustive(case):
+    """Expand every given op prefix by every op on a directly driven MemoryCache; returns new abstract states."""
+    import shutil as _sh
+    from sim import world as _w
+    root = core.new_scratch("c06x")
+
+    def body(emit):
+        import datetime
+        from twosigma.memento.storage_base import MemoryCache
+        from twosigma.memento.metadata import Memento, InvocationMetadata, ResultType
+        _w.install_seams(1)
+        W = storeops.World(root, {"backend": "fs", "cache_kib": None, "sep_meta": False})
+        fns = [W.fns["fa#1"], W.fns["fa#1"], W.fns["fab#1"]]     # keys 0,1 share a function; key 2 another one
+        xs = [0, 1, 0]
+        est = MemoryCache._estimate_object_size
+
+        def mem(k, val):
+            fra = fns[k].fn_reference().with_args(xs[k])
+            return Memento(time=datetime.datetime(2020, 1, 1, tzinfo=datetime.timezone.utc),
+                           invocation_metadata=InvocationMetadata(fn_reference_with_args=fra, invocations=[], resources=[],
+                                                                  runtime=datetime.timedelta(seconds=1), result_type=ResultType.from_object(val)),
+                           function_dependencies={fra.fn_reference}, runner={"type": "local"}, correlation_id="c", content_key=None)
+
+        def ckey(k):
+            return fns[k].fn_reference().qualified_name + "/" + fns[k].fn_reference().with_args(xs[k]).arg_hash
+        budget = EX_BUDGET_KIB * 1024
+        out = {"states": {}, "viol": None, "transitions": 0}
+        u = [0]
+
+        def run(seq):
+            """returns (cache, model info) or raises AssertionError(law)"""
+            mc = MemoryCache(EX_BUDGET_KIB / 1024.0)
+            t = 0
+            certain, possible, fits, stored = {}, {}, {}, {}
+            for op in seq:
+                t += 1
+                pre = {k: e.has_value for k, e in mc.cache.items()}
+                kind = op[0]
+                if kind == "put":
+                    u[0] += 1
+                    val = "%07d" % u[0] + "s" * EX_SIZES[op[2]]
+                    mc.put(mem(op[1], val), val, has_result=True)
+                    key = ckey(op[1])
+                    stored[key] = val
+                    if est(val) > budget:
+                        fits[key] = False
+                        certain.pop(key, None)
+                        possible.pop(key, None)
+                        assert key not in mc.cache, "cache-oversize-or-stale-resident"
+                    else:
+                        fits[key] = True
+                        certain[key] = possible[key] = t
+                        assert key in mc.cache and mc.cache[key].has_value and mc.cache[key].value == val, "cache-latest-write-not-resident"
+                elif kind == "putm":
+                    key = ckey(op[1])
+                    if key in stored and key not in mc.cache:     # what a look-up that misses the cache does
+                        mc.put(mem(op[1], stored[key]), None, has_result=False)
+                        certain[key] = possible[key] = t
+                        fits.setdefault(key, True)
+                elif kind == "read":
+                    key = ckey(op[1])
+                    if key in stored:
+                        try:
+                            v = mc.read_result(mem(op[1], stored[key]))
+                            assert v == stored[key], "cache-served-stale-value"
+                            certain[key] = possible[key] = t
+                        except KeyError:
+                            val = stored[key]                      # miss: the backend loads and offers the value
+                            mc.put(mem(op[1], val), val, has_result=True)
+                            if est(val) > budget:
+                                fits[key] = False
+                                certain.pop(key, None)
+                                possible.pop(key, None)
+                                assert key not in mc.cache or not mc.cache[key].has_value, "cache-oversize-or-stale-resident"
+                            else:
+                                fits[key] = True
+                                certain[key] = possible[key] = t
+                                assert key in mc.cache and mc.cache[key].has_value, "cache-read-fill-not-resident"
+                elif kind == "is":
+                    key = ckey(op[1])
+                    r = mc.is_memoized(fns[op[1]].fn_reference(), fns[op[1]].fn_reference().with_args(xs[op[1]]).arg_hash)
+                    if key in pre:
+                        assert r, "cache-is-memoized-false-for-resident"
+                        possible[key] = t
+                elif kind == "get":
+                    key = ckey(op[1])
+                    g = mc.get_mementos([fns[op[1]].fn_reference().with_args(xs[op[1]]).fn_reference_with_arg_hash()])[0]
+                    assert (g is not None) == (key in pre), "cache-get-presence"
+                    if key in pre:
+                        possible[key] = t
+                elif kind == "forget_call":
+                    key = ckey(op[1])
+                    mc.forget_call(fns[op[1]].fn_reference().with_args(xs[op[1]]).fn_reference_with_arg_hash())
+                    for d in (certain, possible, fits, stored):
+                        d.pop(key, None)
+                    assert key not in mc.cache, "cache-holds-forgotten-entries"
+                elif kind == "forget_fn":
+                    f = fns[0] if op[1] == 0 else fns[2]
+                    mc.forget_function(f.fn_reference())
+                    gone = [ckey(k) for k in range(EX_KEYS) if fns[k] is f]
+                    for key in gone:
+                        for d in (certain, possible, fits, stored):
+                            d.pop(key, None)
+                        assert key not in mc.cache, "cache-holds-forgotten-entries"
+                elif kind == "forget_all":
+                    mc.forget_everything()
+                    for d in (certain, possible, fits, stored):
+                        d.clear()
+                    assert not mc.cache, "cache-holds-forgotten-entries"
+                # laws after every op
+                assert mc.memory_usage <= budget, "cache-over-budget"
+                acct = sum(int(e.obj_size) for e in mc.cache.values())
+                assert int(mc.memory_usage) == acct, "cache-usage-counter-drift"
+                real = sum(int(est(e.value)) if e.has_value else int(est(None)) for e in mc.cache.values())
+                assert real == acct, "cache-entry-size-dishonest"
+                assert sorted(mc.lru_deque) == sorted(mc.cache), "cache-queue-key-mismatch"
+                if not stored:
+                    assert mc.memory_usage == 0 and not mc.cache, "cache-usage-not-zero-after-forget"
+                for a in mc.cache:
+                    for b, cb in certain.items():
+                        assert not (b not in mc.cache and fits.get(b) and cb > possible.get(a, 0)), "cache-evicted-more-recent-entry"
+            return mc, stored
+
+        def abstract(mc, stored):
+            names = {ckey(k): k for k in range(EX_KEYS)}
+            def cls(e):
+                if not e.has_value:
+                    return "m"
+                n = len(e.value) - 7
+                return [s for s, v in EX_SIZES.items() if v == n][0]
+            return json.dumps([[names[k], cls(mc.cache[k])] for k in mc.lru_deque] + [sorted(names[k] for k in stored)])
+        import json
+        ops = ex_ops()
+        for prefix in case["prefixes"]:
+            for op in ops:
+                seq = prefix + [op]
+                out["transitions"] += 1
+                try:
+                    mc, stored = run(seq)
+                except AssertionError as e:
+                    out["viol"] = [str(e), seq]
+                    break
+                st = abstract(mc, stored)
+                if st not in out["states"]:
+                    out["states"][st] = seq
+            if out["viol"]:
+                break
+        emit(out)
+    try:
+        ev, _ = core.lifetime(body, timeout=600)
+    finally:
+        _sh.rmtree(root, ignore_errors=True)
+    return ev[-1]
+
+
+_orig_execute = execute
+_orig_cases = cases
+
+
+def cases(tier, seed):
+    return _orig_cases(tier, seed) + [{"seed": 1, "mode": "exhaustive-closure", "max_states": 4000 if tier == "quick" else 200000}]
+
+
+def execute(case):
+    if case.get("mode") != "exhaustive-closure":
+        return _orig_execute(case)
+    # breadth-first closure over abstract cache states (resident keys in recency order x size class, stored set)
+    seen = {}
+    frontier = [[]]
+    transitions = 0
+    viol = []
+    depth = 0
+    while frontier and len(seen) < case["max_states"] and not viol:
+        depth += 1
+        nxt = []
+        for i in range(0, len(frontier), 40):
+            r = _exec_exhaustive(_ex_case(frontier[i:i + 40]))
+            transitions += r["transitions"]
+            if r["viol"]:
+                viol.append(core.violation(r["viol"][0], {"mode": "exhaustive"}, {"ops": r["viol"][1]}))
+                break
+            for st, seq in r["states"].items():
+                if st not in seen:
+                    seen[st] = seq
+                    nxt.append(seq)
+        frontier = nxt
+    closed = not frontier and not viol
+    stats = {"exhaustive_states": len(seen), "exhaustive_transitions": transitions, "exhaustive_depth": depth,
+             "exhaustive_closed": 1 if closed else 0}
+    dg = core.digest_of(sorted(seen))
+    return {"violations": viol, "digest": dg, "nontrivial": True, "stats": stats, "steps": transitions, "key": dg,
+            "evaluations": transitions,
+            "sample": {"mode": "exhaustive-closure", "keys": EX_KEYS, "sizes": EX_SIZES, "budget_kib": EX_BUDGET_KIB,
+                       "states": len(seen), "closed": closed, "deepest_sequence": max(seen.values(), key=len) if seen else []}}
+
+
+def coverage_extra(tier, stats):
+    return {"exhaustive": False,
+            "explanation": "sampled histories through the backend plus a breadth-first closure of MemoryCache driven directly over "
+                           "3 keys x 5 size classes x 22 operations: %d abstract states, %d transitions, closed=%s" % (
+                               stats.get("exhaustive_states", 0), stats.get("exhaustive_transitions", 0), bool(stats.get("exhaustive_closed")))}
